@@ -32,7 +32,7 @@ reg("C10",
     "Screen.tla, a terminal screen model in TLA+.  TLC (M1) exhaustively checks every history of 5 (quick) / 7 (thorough) calls incl. a renderable "
     "that starts raising and restarts, for both renderers x transient, against ScreenOK / no-overwrite / cursor-in-region / Restored; (M2) emits "
     "every 3..5-call history.  Those and seeded random histories (<= 40 calls incl. log, argument-less print()/log(), redirected stdout and stderr, "
-    "multi-row status texts and spinner changes, task add/hide/show/remove/relabel, faults in the renderable and in the body; display class x transient x "
+    "multi-row status texts and spinner changes, task add/hide/show/remove/relabel, faults in the renderable and in the body (from one call on for good, or in the renders of one call only with the renderable working again afterwards - also when the block is then left); display class x transient x "
     "vertical_overflow x console height x terminal width x redirect options x frames whose rows are wider than the terminal) run on the real classes; every byte written to the console file is tokenised and TLC itself replays it on "
     "Screen.tla, comparing the screen, cursor visibility, hook depth and stdio restoration after every call (trace validation).  Bounded; conformance, not proof.",
     "Trusted: engine/termlex.py (lexical tokeniser; text identified by per-line labels, unlabelled text counted as blanks); Screen.tla wraps text "
@@ -71,7 +71,7 @@ reg("C11",
     "ConsoleConc.tla models a print and a refresh at the grain of the code's critical sections (hook phase under the live lock, frame render, write "
     "under the console lock); TLC checks all interleavings of a 2-thread program against the Screen.tla invariants and deadlock freedom for the intended "
     "design (atomic print) and reports that the faithful design violates the screen invariant (the stale-erase race, a recorded known finding).  Real "
-    "threads then run random programs (2-4 threads x 1-2 calls over print/log/capture/export/update+refresh/refresh/advance and, in a quarter of the "
+    "threads then run every PAIR of calls (one per thread, 47 programs over the three displays) under every schedule with one pre-emption at a lock / write / event point, and random programs (2-4 threads x 1-2 calls over print/log/capture/export/update+refresh/refresh/advance and, in a quarter of the "
     "programs, stop/start of the display from worker threads, with no display, a Live or a Progress, optionally with the refresh thread) under the deterministic scheduler: DFS with pre-emption bound 2 over lock/write/event points, bound 1 "
     "over every executed line of console.py/live.py/live_render.py/progress.py, random and PCT schedules; every recorded execution (calls, hook phases, "
     "writes, recorded copy) is judged by TLC: each print reaches the file exactly once and contiguously, captures are isolated, record order equals file "
@@ -149,7 +149,7 @@ reg("C03",
     "links, bell control segments) are printed on real consoles of every colour system x NO_COLOR x terminal x legacy-windows configuration, the SAME Style objects on up to 4 "
     "consoles in a row; the written characters are tokenised lexically and TLC interprets them with Sgr.tla and judges: visible characters, per-character attributes / "
     "foreground / background / link against what the style means (after the documented down-conversion), no leak past the end, no escape with colour disabled, no colour "
-    "parameter under NO_COLOR, no control code on a non-terminal.  Bounded sampling judged by a formal terminal model. The generator was audited against the quantifier and the public options of the anchored code; the dimensions it varies and the corners it deliberately keeps out are listed per property in DESIGN.md §13.",
+    "parameter under NO_COLOR, no control code on a non-terminal.  Bounded sampling judged by a formal terminal model. The repository's own test-suite is a further trace source: tools/pytest_sgrtrace.py logs every Console._render_buffer call the 441 tests make (segments in, characters out) as a Trace_Sgr record and TLC judges each (180 distinct records on the unchanged tree). The generator was audited against the quantifier and the public options of the anchored code; the dimensions it varies and the corners it deliberately keeps out are listed per property in DESIGN.md §13.",
     "Trusted: engine/sgrlex.py; expected pens are read from the Style's public getters and Color.downgrade (the down-conversion itself is C18's subject). Console wide enough "
     "not to wrap.",
     "TLA+ spec Sgr.tla (independent terminal automaton) + MC_Sgr (encoder design vs automaton, exhaustive over a pen domain) + TLC validation of the tokenised output of real consoles (Trace_Sgr)",
